@@ -11,6 +11,7 @@ import (
 	"go/types"
 	"math/big"
 	"os"
+	"runtime/debug"
 	"sort"
 	"strings"
 
@@ -28,7 +29,7 @@ type Obligation struct {
 	Pos       string
 	Text      string
 	Script    *Script
-	Slow      bool // discharged only in the thorough tier
+	Slow      bool     // discharged only in the thorough tier
 	Props     []string // if non-empty: the clause counts only for these properties
 	Parts     []string // ensures: one conjunct per return point
 }
@@ -54,36 +55,36 @@ type loopInfo struct {
 }
 
 type Gen struct {
-	usedSites map[string]bool
-	sitePos   token.Pos
-	eng    *Engine
-	fn     *ssa.Function
-	ct     *Contract
-	sc     *Script
-	val    map[ssa.Value]string
-	tup    map[ssa.Value][]string
-	lp     map[ssa.Value]*localPath
-	escape map[*ssa.Alloc]bool
-	in     map[*ssa.BasicBlock]*State
-	out    map[*ssa.BasicBlock]*State
-	obls   []*Obligation
-	loops  map[*ssa.BasicBlock]*loopInfo
-	entry  *State
-	refuse string // non-empty: function outside supported subset
-	notes  []string
-	nameCt map[string]int
-	srcCache map[string][]string
-	rets   []retPoint
-	defers []*ssa.Defer
-	rangeMap map[*ssa.Range]ssa.Value
+	usedSites    map[string]bool
+	sitePos      token.Pos
+	eng          *Engine
+	fn           *ssa.Function
+	ct           *Contract
+	sc           *Script
+	val          map[ssa.Value]string
+	tup          map[ssa.Value][]string
+	lp           map[ssa.Value]*localPath
+	escape       map[*ssa.Alloc]bool
+	in           map[*ssa.BasicBlock]*State
+	out          map[*ssa.BasicBlock]*State
+	obls         []*Obligation
+	loops        map[*ssa.BasicBlock]*loopInfo
+	entry        *State
+	refuse       string // non-empty: function outside supported subset
+	notes        []string
+	nameCt       map[string]int
+	srcCache     map[string][]string
+	rets         []retPoint
+	defers       []*ssa.Defer
+	rangeMap     map[*ssa.Range]ssa.Value
 	uncontracted map[string]bool
-	assumptions map[string]bool
-	curBlock *ssa.BasicBlock
-	oldFrontier string
-	storeFresh  bool // the store being translated writes an object allocated by this function
-	inlineDepth int
-	entryPrefix int
-	pathPoints  []pathPoint
+	assumptions  map[string]bool
+	curBlock     *ssa.BasicBlock
+	oldFrontier  string
+	storeFresh   bool // the store being translated writes an object allocated by this function
+	inlineDepth  int
+	entryPrefix  int
+	pathPoints   []pathPoint
 }
 
 type pathPoint struct {
@@ -570,7 +571,9 @@ func (g *Gen) storeAt(st *State, ref string, t types.Type, tag string, val strin
 // modifies clause names no location in this heap tag, the write must target an object allocated after entry
 // (local obligation, the per-write form of the frame condition); the new version then agrees with the old one on
 // all pre-existing objects.
-func (g *Gen) frameWrite(st *State, tag, rbTerm, cur, nw string) { g.frameWriteX(st, tag, rbTerm, cur, nw, "") }
+func (g *Gen) frameWrite(st *State, tag, rbTerm, cur, nw string) {
+	g.frameWriteX(st, tag, rbTerm, cur, nw, "")
+}
 
 // frameWriteX: exempt is a condition under which nothing is written at all (an empty slice).
 func (g *Gen) frameWriteX(st *State, tag, rbTerm, cur, nw, exempt string) {
@@ -802,6 +805,9 @@ func (g *Gen) localSet(st *State, p *localPath, val string) {
 func (g *Gen) Run() {
 	defer func() {
 		if r := recover(); r != nil {
+			if os.Getenv("GOVC_DEBUG") != "" {
+				fmt.Fprintf(os.Stderr, "%s\n", debug.Stack())
+			}
 			g.refusef("engine panic: %v", r)
 		}
 	}()
